@@ -12,10 +12,10 @@ Definition decode_register (r : reg) (raw : list byte) : res rvalue :=
   if r_kind r =? 1 then
     if r_signed r
     then match le_int raw with
-         | Some z => Ok (RVNum (number_value r z))
+         | Some z => Ok (RVNum (number_value r z) z)
          | None => Err (wrap r EOther)
          end
-    else Ok (RVNum (number_value r (le_uint raw)))
+    else Ok (RVNum (number_value r (le_uint raw)) (le_uint raw))
   else if r_kind r =? 2 then Ok (RVText (trim_space (strip_nul raw)))
   else if r_kind r =? 3 then
     match new_enum (enum_map_of (r_factory r)) (int_of_uint64 (le_uint raw)) with
